@@ -49,10 +49,14 @@ K_COMMON_STUBS = ["std::fmt::format -> empty string (error-message text is outsi
                   "hex::encode -> empty string where listed (only used inside error messages)"]
 
 
+# harnesses that decide a facet of another property as well (datum / redeemer integers are C02 quantities)
+ALSO = {"C02": ["c09_int_datum", "c09_int_redeemer"]}
+
+
 def k_harnesses(prop, tier):
     pre = prop.lower() + "_"
     out = []
     for h, d in K.items():
-        if h.startswith(pre) and (tier == "thorough" or d["tier"] == "quick"):
+        if (h.startswith(pre) or h in ALSO.get(prop, [])) and (tier == "thorough" or d["tier"] == "quick"):
             out.append(h)
     return out
